@@ -38,7 +38,8 @@ def _write_cnn(path, cols):
             fh.write("\t".join(repr(float(v)) if isinstance(v, (float, np.floating)) else str(v) for v in row) + "\n")
 
 
-def gen_bins(rng, kind, with_fasta, inferred=False):
+def gen_bins(rng, kind, with_fasta, inferred=False, panel_without_sex=False):
+    """panel_without_sex: an autosome-only gene panel -- no target bin on X or Y, which only the antitargets cover."""
     prefix = "chr" if rng.random() < 0.6 else ""
     nauto = int(rng.integers(1, 5))
     names = [str(k) for k in sorted(rng.choice([1, 2, 3, 5, 11, 17], nauto, replace=False).tolist())]
@@ -68,14 +69,16 @@ def gen_bins(rng, kind, with_fasta, inferred=False):
         for i in range(n):
             pos += int(rng.integers(0, 400))
             ln = int(rng.integers(60, 500))
-            tb["chromosome"].append(prefix + nm)
-            tb["start"].append(pos)
-            tb["end"].append(pos + ln)
-            tb["gene"].append(f"G{nm}_{i // 5}")
+            off_panel = panel_without_sex and nm in ("X", "Y")
+            if not off_panel:
+                tb["chromosome"].append(prefix + nm)
+                tb["start"].append(pos)
+                tb["end"].append(pos + ln)
+                tb["gene"].append(f"G{nm}_{i // 5}")
             pos += ln
             # inferred sexes need >= 40 chrX bins in the antitarget file too; with corrections possibly on (sex-mix)
             # every chromosome gets the same antitarget density so that the sex-chromosome share stays <= 10% in both blocks
-            if rng.random() < (1.0 if inferred and (nm == "X" or kind == "sex-mix") else 0.3):
+            if rng.random() < (1.0 if off_panel or (inferred and (nm == "X" or kind == "sex-mix")) else 0.3):
                 pos += int(rng.integers(0, 100))
                 ln = int(rng.integers(800, 4000))
                 ab["chromosome"].append(prefix + nm)
@@ -141,13 +144,17 @@ def case_cohort(run, i):
     cli_case = i % 5 == 2
     if cli_case and (i // 5) % 2 == 0:
         want_given = True          # the sub-command's -x spellings are exercised on given-sex cohorts of both sexes
-    tb, ab, lengths = gen_bins(rng, kind, with_fasta, inferred=not want_given)
+    panel_without_sex = (i % 7 == 3) and kind != "mismatch"
+    tb, ab, lengths = gen_bins(rng, kind, with_fasta, inferred=not want_given, panel_without_sex=panel_without_sex)
     nsamp = int(rng.integers(1, 9))
     if kind in ("depth-only", "sex-mix"):
         nsamp = max(2, nsamp)
     male_ref = bool(rng.integers(0, 2))
     anti_mode = ["files", "files", "empty", "none"][int(rng.integers(0, 4))]
-    has_sex = any(refmon.chrom_class(c) in ("X", "Y") for c in tb["chromosome"])
+    if panel_without_sex:
+        anti_mode = "files"
+        run.extra["cohorts:autosome-only-panel-with-sex-chromosomes-in-antitargets"] += 1
+    has_sex = any(refmon.chrom_class(c) in ("X", "Y") for c in tb["chromosome"] + (ab["chromosome"] if anti_mode == "files" else []))
     given = (not has_sex) or want_given
     if given:
         sex_all = bool(rng.integers(0, 2))
@@ -283,6 +290,18 @@ def case_flat(run, i):
     import cnvlib.reference as R
     rng = run.rng("flat", i)
     tb, ab, lengths = gen_bins(rng, "random", True)
+    nested = (i // 2) % 3 == 1
+    if nested:
+        # a whole-gene interval laid over its baits: it starts with the chromosome's first bait and reaches past the last one,
+        # so the chromosome's last row (by start) is a short bait that ends before the longest bin does
+        rows = list(zip(tb["chromosome"], tb["start"], tb["end"], tb["gene"]))
+        for c in list(dict.fromkeys(tb["chromosome"])):
+            mine = [r for r in rows if r[0] == c]
+            if len(mine) >= 3 and rng.random() < 0.7:
+                rows.append((c, mine[0][1], min(mine[-1][2] + int(rng.integers(20, 300)), lengths[c] - 1), "GENE_" + c))
+        order = {c: k for k, c in enumerate(dict.fromkeys(tb["chromosome"]))}
+        rows.sort(key=lambda r: (order[r[0]], r[1], r[2]))
+        tb = {k: [r[j] for r in rows] for j, k in enumerate(("chromosome", "start", "end", "gene"))}
     d = os.path.join(run.workdir, f"flat{run.shard}_{i}")
     os.makedirs(d, exist_ok=True)
     tbed, abed, fa = os.path.join(d, "t.bed"), os.path.join(d, "a.bed"), os.path.join(d, "g.fa")
@@ -294,7 +313,7 @@ def case_flat(run, i):
     if use_fa:
         gen_fasta(rng, fa, lengths)
     male = bool((i // 2) % 2)
-    run.begin_case("flat", i, cls="flat:" + ("fasta" if use_fa else "nofasta"))
+    run.begin_case("flat", i, cls="flat:" + ("fasta" if use_fa else "nofasta") + (":nested-bins" if nested else ""))
     try:
         R.do_reference_flat(tbed, abed if len(ab["start"]) and i % 3 else None, fa if use_fa else None, male)
     except Exception as exc:
